@@ -1,7 +1,7 @@
 """C34 — body streams deliver exact bytes and are closed exactly once
 (specs/wire/BodyStream.tla; exhaustive TLC over all scenarios + TLC-evaluated outcomes replayed
 into Response.Write, Request.Write, a real server and a real client, binding B3)."""
-import os
+import os, json
 from verif.core import Infra
 
 META = dict(
@@ -19,7 +19,26 @@ def run(ctx):
     path = os.path.join(r["dir"], "vectors.ndjson")
     if not os.path.exists(path):
         raise Infra("BodyStreamGen wrote no vectors")
-    recs = ctx.go_test(".", ["c34_"], "^TestVerifC34", infile=path, timeout=1500)
+    # compressed pipeline: every interleaving of the compressing and the serving goroutine with a
+    # non-atomic Close of the original stream; behaviours are replayed with gated streams/writers
+    if not ctx.quick:
+        ctx.tlc_mc("wire", "CompressedClose", "CompressedCloseMC.cfg", workers=2, timeout=600)
+    # (the generator run checks the same invariants on the same interleavings, with the history)
+    _, beh = ctx.tlc_gen("wire", "CompressedClose", "CompressedCloseGen.cfg", workers=1, timeout=600)
+    if not beh:
+        raise Infra("CompressedCloseGen printed no behaviours")
+    if not ctx.quick:
+        # anti-vacuity: the check-then-act variant of the model must violate CloseOnce
+        rs = ctx.tlc("wire", "CompressedClose", "CompressedCloseSloppy.cfg", workers=1, timeout=600, allow_codes=(0, 12))
+        if "Invariant Inv is violated" not in rs["out"]:
+            raise Infra("CompressedCloseSloppy did not violate CloseOnce: the model cannot tell the variants apart")
+    sched = os.path.join(ctx.scratch, "c34_sched.ndjson")
+    with open(sched, "w") as f:
+        for b in beh:
+            f.write(json.dumps(b) + "\n")
+    ctx.extra["compressed_close_behaviours"] = len(beh)
+    recs = ctx.go_test(".", ["c34_"], "^TestVerifC34BodyStream$", infile=path, timeout=1500,
+                       env={"VERIF_C34_SCHED": sched})
     ctx.absorb(recs)
     ctx.traces_validated = ctx.evaluations
     ctx.exhaustive = True   # the scenario space is enumerated completely; every scenario meets Response.Write or Request.Write, the live bindings take a seed-chosen share
@@ -28,4 +47,5 @@ def run(ctx):
     ctx.assumptions = ["content length 0..%d, every composition of it as Read sizes, last data with/without io.EOF" % maxl,
                        "declared size = / -1 / +1 / unknown; closer none / io.Closer / Closer+CloseWithError (responses)",
                        "writer fault while head / body / trailer is written (byte offsets of that phase) or a panic in any Read call; not both in one scenario",
-                       "owner afterwards: released / Reset / SetBody"]
+                       "owner afterwards: released / Reset / SetBody",
+                       "compressed pipeline (CompressedClose.tla): write error before the original's EOF / after EOF / while its Close is in progress / after Close; gzip, deflate, br, zstd and CompressHandler on a live connection; a second Close is awaited for 500 ms while the first is held"]
